@@ -37,6 +37,8 @@ def shunting_yard(expr_nodes: list[ExprNode]) -> list[ExprNode]:
         if isinstance(expr, Term):
             output_queue.append(expr)
         elif isinstance(expr, BinOp) or isinstance(expr, UnaryOp):
+            if isinstance(expr, BinOp) and expr.token.value not in OPERATOR_PRECEDENCE:
+                raise RuntimeError(f"Unsupported operator {expr.token.value}")
             current_precedence = OPERATOR_PRECEDENCE[expr.token.value] if isinstance(expr, BinOp) else 2
 
             # a prefix operator never pops pending operators, it applies to what follows it.
